@@ -35,13 +35,15 @@ type codecStats struct {
 	evals                           int
 	regEvals                        int
 	offEvals                        int
+	offByLang                       map[string]int
+	offSkipped                      map[string]int
 	regStates                       map[string]bool
 	blockers                        map[string]int
 	distinct                        map[string]bool
 }
 
 func newCodecStats() *codecStats {
-	return &codecStats{blockers: map[string]int{}, distinct: map[string]bool{}, regStates: map[string]bool{}}
+	return &codecStats{blockers: map[string]int{}, distinct: map[string]bool{}, regStates: map[string]bool{}, offByLang: map[string]int{}, offSkipped: map[string]int{}}
 }
 
 func (s *codecStats) coverage(rule string, cases []*ProgCase) core.Coverage {
@@ -72,7 +74,9 @@ func (s *codecStats) coverage(rule string, cases []*ProgCase) core.Coverage {
 		"unobservable_because":           bl,
 		"exhaustive":                     true,
 		"non_initial_buffer_evaluations": s.offEvals,
-		"non_initial_buffers":            "every case's first 2 messages x buffers already holding {a5, 01..07}: encoder appends after them (C01/C04/C06), decoder starts behind them (C02); judged only where the same message is handled correctly from the initial state",
+		"non_initial_buffer_evaluations_by_target": s.offByLang,
+		"non_initial_buffer_commands_not_understood_by_driver": s.offSkipped,
+		"non_initial_buffers":            "every case's first 2 messages x buffers already holding {a5, 01..07, another message of the program}: encoder appends after them (C01/C04/C06), decoder starts behind them (C02); the same object encoded twice (C01); judged only where the same message is handled correctly from the initial state",
 	}
 }
 
@@ -142,6 +146,7 @@ func C01(ctx *core.Ctx) int {
 				}
 			}
 			offEncChecks(ctx, pc, cc, st, -1)
+			twiceChecks(ctx, pc, cc, st)
 		}
 	}
 	cov := st.coverage("cells = (program, option configuration, target); programs = P1 singles under every relevant option point with <= 1 (quick) / <= 2 (thorough) non-default options, the universal packet under every such point, P2 pairs, P3 nesting, P5 graphs, P6 repository protocols; messages = every message with <= 1 / <= 2 members off the baseline over boundary value domains. "+
